@@ -3,11 +3,11 @@ import json, collections
 from . import resolve_common as R
 
 CLAIM = dict(
-    text="Coq theorems relating the executable model of MultiTypeMap resolution (Model/Resolve.v: level tables by Kahn layering of the applicable registered types, arity/keyword filter, stable sort by (priority, sum of levels, tiebreak), _pull, first-rank outcome) to the documented rule (Spec/Dispatch.v: applicable, beats, spec_outcome) for every class DAG, every method list and every key: 'No method' exactly when no method is applicable (C02_no_method); a method the rule names as winner is returned (C02_winner_complete); the method returned is applicable and beaten by none (C02_winner_maximal). The only remaining difference -- rule says Ambiguous, implementation returns an unbeaten method -- is real (C02_exact_refuted, KF-01: layer-index levels order unrelated classes) and is classified by chain_applicable. Key lemma: Kahn rounds are strictly monotone along the subclass order (Proofs/ResolveLevels.v). Tie to /repo: every generated program is run through the real Ovld (public call and resolve(), bodies record entry) and through the extracted model; outcomes must agree exactly, and every deviation from the rule must be of the KF-01 shape, outside chain_applicable, and predicted by the model.",
+    text="Coq theorems relating the executable model of MultiTypeMap resolution (Model/Resolve.v: level tables by Kahn layering of the applicable registered types, arity/keyword filter, stable sort by (priority, sum of levels, tiebreak), _pull, first-rank outcome) to the documented rule (Spec/Dispatch.v: applicable, beats, spec_outcome) for every class DAG, every method list and every key: 'No method' exactly when no method is applicable (C02_no_method); a method the rule names as winner is returned (C02_winner_complete); the method returned is applicable and beaten by none (C02_winner_maximal). Where the call's classes fall under pairwise comparable registered types at every position (chain_applicable; every call under single inheritance) the outcome IS the rule's verdict, Ambiguous included (C02_exact_on_chains, C02_single_inheritance_exact, for tiebreaks as any sequence of registrations leaves them: C02_ties_registered). Outside that domain the only remaining difference -- rule says Ambiguous, implementation returns an unbeaten method -- is real (C02_exact_refuted, KF-01: layer-index levels order unrelated classes) and is classified by chain_applicable. Key lemma: Kahn rounds are strictly monotone along the subclass order (Proofs/ResolveLevels.v). Tie to /repo: every generated program is run through the real Ovld (public call and resolve(), bodies record entry) and through the extracted model; outcomes must agree exactly, and every deviation from the rule must be of the KF-01 shape, outside chain_applicable, and predicted by the model.",
     note="Trusted: Coq kernel, extraction, driver, hand model (validated by the correspondence), issubclass table of the generated classes, the harness's guarded hook fixing set-iteration order to registration order (OVLD_VERIF). Reading adopted: a Python binding TypeError raised by the generated entry point for a call shape no method accepts counts as the 'no applicable method' error. Tiebreaks come from the registration model (defs_register). The side condition that the level computation does not fail is itself proved for the static fragment (C02_static_total: no fuel exhaustion, no graphlib cycle).",
     technique="Coq proof (Kahn-layer monotonicity, sort/_pull lemmas, spec vs model) + differential correspondence on generated programs", design="6 C02")
 
-THEOREMS = ["C02_static_total", "C02_no_internal_error", "C02_winner_complete_unconditional", "C02_winner_maximal_unconditional", "C02_no_method_unconditional", "C02_leaf_dominates", "C02_leaf_sort_key", "C02_leaf_arity", "C02_no_method", "C02_winner_complete", "C02_winner_maximal", "C02_exact_refuted"]
+THEOREMS = ["C02_static_total", "C02_no_internal_error", "C02_winner_complete_unconditional", "C02_winner_maximal_unconditional", "C02_no_method_unconditional", "C02_leaf_dominates", "C02_leaf_sort_key", "C02_leaf_arity", "C02_no_method", "C02_winner_complete", "C02_winner_maximal", "C02_exact_on_chains", "C02_single_inheritance_exact", "C02_ties_registered", "C02_exact_refuted"]
 ASSUMPTIONS = ["generated worlds satisfy the theorems' hypotheses (issubclass reflexive/antisymmetric): checked per world",
                "call shapes mixing keywords with omitted optional positionals are left to C03 (entry point)"]
 
